@@ -378,6 +378,8 @@ pub fn c03_run(t: Tier, s: Shard, st: &mut Stats) {
     run_cfgs(c03_configs(t), s, st);
     // printed lines under a rate-limited standalone target
     crate::c04s::run(t, s, st);
+    // printed lines across a change of the draw target (two terminals)
+    crate::c03x::run(t, s, st);
 }
 pub fn c04_run(t: Tier, s: Shard, st: &mut Stats) {
     run_cfgs(c04_configs(t), s, st);
@@ -391,7 +393,9 @@ pub fn c02_meta(t: Tier) -> Meta {
     meta_for(c02_configs(t), "each live member once with its last drawn rendering, logical order, below the log, no stale/duplicate/residue rows")
 }
 pub fn c03_meta(t: Tier) -> Meta {
-    meta_for(c03_configs(t), "every emitted log row present exactly once, in order, above every live bar")
+    let mut m = meta_for(c03_configs(t), "every emitted log row present exactly once, in order, above every live bar");
+    m.rule.push_str(&format!("; plus the standalone rate-limited engine (see C04) and every history of <= {} operations from {{println, add+tick, finish+drop the first bar, tick, set_draw_target(terminal T), set_draw_target(terminal U)}} over two terminals: each terminal shows the lines printed while it was the target, once, in order", crate::c03x::depth(t)));
+    m
 }
 pub fn c04_meta(t: Tier) -> Meta {
     let mut m = meta_for(c04_configs(t), "finish*/abandon*/drop always paint the final state; dropping a finished bar is a screen no-op; visibly finished bars keep their final rendering");
@@ -429,6 +433,9 @@ pub fn c02_replay(v: &Value) -> i32 {
     replay_any(v, "C02")
 }
 pub fn c03_replay(v: &Value) -> i32 {
+    if let Some(c) = crate::c03x::replay(v) {
+        return c;
+    }
     replay_any(v, "C03")
 }
 pub fn c04_replay(v: &Value) -> i32 {
